@@ -52,6 +52,68 @@ theorem restore_details (ds : List Detail) (h : ds.all (fun d => defaultPrefixed
     simp only [List.all_cons, Bool.and_eq_true] at h
     simp only [List.map_cons, restore_prefix d.url h.1, ih h.2]
 
+theorem mem_takeWhile_pos {α} (p : α → Bool) (l : List α) (x : α) (hx : x ∈ l.takeWhile p) : p x = true := by
+  induction l with
+  | nil => cases hx
+  | cons a t ih =>
+    by_cases ha : p a = true
+    · simp only [List.takeWhile_cons, ha, if_true, List.mem_cons] at hx
+      rcases hx with rfl | hx
+      · exact ha
+      · exact ih hx
+    · have ha' : p a = false := by simpa using ha
+      simp [ha'] at hx
+
+theorem dropWhile_head {α} (p : α → Bool) (l : List α) :
+    l.dropWhile p = [] ∨ ∃ c r, l.dropWhile p = c :: r ∧ p c = false := by
+  induction l with
+  | nil => exact Or.inl rfl
+  | cons a t ih =>
+    by_cases ha : p a = true
+    · simpa [List.dropWhile_cons, ha] using ih
+    · have ha' : p a = false := by simpa using ha
+      exact Or.inr ⟨a, t, by simp [ha'], ha'⟩
+
+/-- what connect-go's `Type()` returns is the type the URL names, for every URL -/
+theorem typeName_names (url : Str) : urlNames url (typeName url) = true := by
+  unfold urlNames
+  simp only [Bool.and_eq_true, Bool.not_eq_true', Bool.or_eq_true, beq_iff_eq, List.isSuffixOf_iff_suffix]
+  have hsplit := List.takeWhile_append_dropWhile (p := fun c : Char => c != '/') (l := url.reverse)
+  constructor
+  · cases hc : (typeName url).contains '/' with
+    | false => rfl
+    | true =>
+      have hm : '/' ∈ typeName url := by simpa using hc
+      unfold typeName at hm
+      have := mem_takeWhile_pos _ _ _ (List.mem_reverse.mp hm)
+      simp at this
+  · rcases dropWhile_head (fun c : Char => c != '/') url.reverse with hd | ⟨c, r, hd, hc⟩
+    · left
+      rw [hd, List.append_nil] at hsplit
+      have := congrArg List.reverse hsplit
+      unfold typeName
+      simpa using this.symm
+    · right
+      have hc' : c = '/' := by simpa using hc
+      subst hc'
+      rw [hd] at hsplit
+      have := congrArg List.reverse hsplit
+      simp only [List.reverse_append, List.reverse_cons, List.reverse_reverse, List.append_assoc,
+        List.singleton_append] at this
+      exact ⟨r.reverse, this⟩
+
+theorem details_restored (ds : List Detail) :
+    detailsRestored ds (ds.map (fun d => ({ url := anyPrefix ++ typeName d.url, value := d.value } : Detail))) = true := by
+  induction ds with
+  | nil => rfl
+  | cons d t ih =>
+    simp only [List.map_cons, detailsRestored, detailRestored, ih, Bool.and_true, Bool.and_eq_true, beq_self_eq_true,
+      true_and]
+    refine ⟨List.isPrefixOf_iff_prefix.mpr ⟨_, rfl⟩, ?_⟩
+    have : (anyPrefix ++ typeName d.url).drop anyPrefix.length = typeName d.url := by simp
+    rw [this]
+    exact typeName_names d.url
+
 /-! ### association lists -/
 
 theorem mdGet_nil (k : Str) : mdGet [] k = [] := rfl
